@@ -626,3 +626,128 @@ func init() {
 		},
 	})
 }
+
+func init() {
+	register(&Rule{
+		Name: "client-lifecycle-shape", Props: []string{"C12", "C18", "C16"}, Engine: "AST", Floor: 6,
+		Doc: "the small pieces of the client's connection lifecycle a rule-only sweep found unguarded: cancel drops the body, gives the slot back exactly when it removed the request from the table, and resets the stream (never stream 0); unanswered PINGs are counted up when one has been flushed, down when one is acknowledged, and three of them end the connection unless checking is disabled; frames of unknown type are skipped, not fatal; the handshake records the server's SETTINGS before it reads them back; closing is guarded by the compare-and-swap that makes it run once",
+		Run: func(p *Prog, r *Out) {
+			r.fn("(*Conn).cancel", "(*Conn).runWriteLoop", "(*Conn).writePing", "(*Conn).readNext", "(*Conn).doHandshake", "(*Conn).shut")
+			if fd := p.decl("(*Conn).cancel"); fd != nil {
+				t := stmtTexts(p, fd.Body.List)
+				idx := func(s string) int {
+					for i, x := range t {
+						if x == squash(s) {
+							return i
+						}
+					}
+					return -1
+				}
+				guard := -1
+				for i, s := range fd.Body.List {
+					if ifs, ok := s.(*ast.IfStmt); ok && squash(p.text(ifs.Cond)) == "id==0" {
+						if _, isRet := ifs.Body.List[len(ifs.Body.List)-1].(*ast.ReturnStmt); isRet {
+							guard = i
+						}
+					}
+				}
+				slot := -1
+				for i, s := range fd.Body.List {
+					if ifs, ok := s.(*ast.IfStmt); ok && squash(p.text(ifs.Cond)) == "c.takeReq(id)" && len(ifs.Body.List) == 1 && squash(p.text(ifs.Body.List[0])) == "atomic.AddInt32(&c.openStreams,-1)" && ifs.Else == nil {
+						slot = i
+					}
+				}
+				dp, rs := idx("c.deletePending(id)"), idx("c.cancelStream(id, StreamCanceled)")
+				r.check(guard >= 0 && dp > guard && slot > guard && rs > guard && rs > slot, "cancel lets go of everything the request held", p.pos(fd.Pos()), "id == 0 -> return; deletePending; if takeReq { openStreams-- }; RST_STREAM(CANCEL)", "cancel no longer refuses stream 0, drops the pending body, gives the slot back exactly when it took the request off the table, and resets the stream: a timed-out request keeps its slot (the connection fills up), its body (sent after the caller has its buffer back), or its stream on the server")
+			}
+			if fd := p.decl("(*Conn).runWriteLoop"); fd != nil {
+				okT := false
+				ast.Inspect(fd.Body, func(n ast.Node) bool {
+					ifs, ok := n.(*ast.IfStmt)
+					if !ok || !p.isConjunctionOf(ifs.Cond, "!c.disableAcks", "atomic.LoadInt32(&c.unacks)>=3") {
+						return true
+					}
+					if res := firstReturn(ifs.Body); len(res) == 1 && p.text(res[0]) == "ErrTimeout" {
+						okT = true
+					}
+					return true
+				})
+				r.check(okT, "three unanswered pings end the connection", p.pos(fd.Pos()), "if !disableAcks && unacks >= 3 { return ErrTimeout }", "the write loop no longer gives a connection up after three PINGs without an acknowledgement (unless checking is disabled): with a server that has gone silent and no MaxResponseTime, requests are never resolved")
+			}
+			if fd := p.decl("(*Conn).writePing"); fd != nil {
+				inc := false
+				ast.Inspect(fd.Body, func(n ast.Node) bool {
+					ifs, ok := n.(*ast.IfStmt)
+					if ok && squash(p.text(ifs.Cond)) == "err==nil" && len(ifs.Body.List) == 1 && squash(p.text(ifs.Body.List[0])) == "atomic.AddInt32(&c.unacks,1)" {
+						inc = true
+					}
+					return true
+				})
+				dec := false
+				if rn := p.decl("(*Conn).readNext"); rn != nil {
+					ast.Inspect(rn.Body, func(n ast.Node) bool {
+						ifs, ok := n.(*ast.IfStmt)
+						if !ok || squash(p.text(ifs.Cond)) != "!ping.IsAck()" {
+							return true
+						}
+						if eb, ok := ifs.Else.(*ast.BlockStmt); ok && len(eb.List) == 1 && squash(p.text(eb.List[0])) == "atomic.AddInt32(&c.unacks,-1)" {
+							dec = true
+						}
+						return true
+					})
+				}
+				r.check(inc && dec, "unanswered pings are counted up when sent and down when acknowledged", p.pos(fd.Pos()), "flushed: unacks++; PING with ACK: unacks--", "the count of unanswered PINGs is no longer raised when one has been flushed and lowered when an acknowledgement arrives: a healthy connection is given up after three pings, or a dead one never")
+			}
+			if fd := p.decl("(*Conn).readNext"); fd != nil {
+				okU := false
+				ast.Inspect(fd.Body, func(n ast.Node) bool {
+					ifs, ok := n.(*ast.IfStmt)
+					if !ok || squash(p.text(ifs.Cond)) != "errors.Is(err,ErrUnknownFrameType)" || len(ifs.Body.List) != 2 {
+						return true
+					}
+					if squash(p.text(ifs.Body.List[0])) == "err=nil" {
+						if b, ok := ifs.Body.List[1].(*ast.BranchStmt); ok && b.Tok == token.CONTINUE {
+							okU = true
+						}
+					}
+					return true
+				})
+				r.check(okU, "a frame of unknown type is skipped", p.pos(fd.Pos()), "if errors.Is(err, ErrUnknownFrameType) { err = nil; continue }", "the client's read loop no longer skips a frame of a type it does not know (RFC 7540 s4.1: MUST be ignored): an extension frame such as ALTSVC ends the connection")
+			}
+			if fd := p.decl("(*Conn).doHandshake"); fd != nil {
+				cpAt, useAt := token.NoPos, token.NoPos
+				ast.Inspect(fd.Body, func(n ast.Node) bool {
+					switch x := n.(type) {
+					case *ast.ExprStmt:
+						if squash(p.text(x.X)) == "st.CopyTo(&c.serverS)" {
+							cpAt = x.Pos()
+						}
+					case *ast.AssignStmt:
+						if strings.Contains(p.text(x), "c.serverS.") && !useAt.IsValid() {
+							useAt = x.Pos()
+						}
+					}
+					return true
+				})
+				r.check(cpAt.IsValid() && useAt.IsValid() && cpAt < useAt, "the handshake records the server's settings before it reads them", p.pos(fd.Pos()), "st.CopyTo(&c.serverS) before c.serverS is read", "doHandshake no longer copies the server's first SETTINGS into its record before it takes the stream window, the stream limit and the frame size from that record: they are taken from an empty record")
+			}
+			if f := p.ssaFunc("(*Conn).shut"); f != nil {
+				okG := false
+				for _, b := range f.Blocks {
+					for _, in := range b.Instrs {
+						ci, ok := in.(ssa.CallInstruction)
+						if !ok || p.calleeName(ci.Common()) != "builtin.close" {
+							continue
+						}
+						for _, ft := range p.factsAt(in) {
+							if strings.Contains(p.vdescN(ft.Cond, 3), "atomic.CompareAndSwapUint64(") && ft.Val {
+								okG = true
+							}
+						}
+					}
+				}
+				r.check(okG, "the connection is shut once", p.pos(f.Pos()), "close(done) only after CompareAndSwap(&closed, 0, 1) succeeded", "shut closes the done channel without having won the compare-and-swap on closed: the second Close (the read loop and the write loop both close on their way out) closes a closed channel and panics")
+			}
+		},
+	})
+}
